@@ -673,6 +673,12 @@ func calculateTextEditRange(content string, pos protocol.Position, ctxType Compl
 		return nil
 	}
 
+	// the replaced fragment ends at the cursor; it cannot start after it (cursor
+	// inside the directive keyword, before the amount, ...)
+	if startByte > byteCol {
+		startByte = byteCol
+	}
+
 	startChar := lsputil.ByteOffsetToUTF16(line, startByte)
 	return &protocol.Range{
 		Start: protocol.Position{Line: pos.Line, Character: uint32(startChar)},
